@@ -770,7 +770,9 @@ double Circuit::expandCellsByFactor(const std::vector<float> &expansionFactor,
     if (!cellIsFixed_[i]) {
       // Just round down here, as we don't want to redistribute expansion
       // between the cells
-      cellWidth_[i] *= expansion[i];
+      // Computed in double: a float cannot represent widths above 2^24
+      cellWidth_[i] =
+          static_cast<int>(static_cast<double>(cellWidth_[i]) * expansion[i]);
     }
   }
 
